@@ -1387,74 +1387,92 @@ def utf8_check(I, line):
             return True
         except UnicodeDecodeError:
             return False
-    # symbolic bytes: decide each one's class with the solver: ASCII or not.
-    # A non-ASCII symbolic byte is (bounded model) treated as making the text invalid unless it
-    # completes a valid sequence with its concrete neighbours, which we decide exactly by enumerating
-    # the lead/continuation classes.
+    # symbolic bytes: run the UTF-8 acceptor over the byte sequence with the symbolic bytes as z3 terms
+    # and decide validity with ONE solver branch.
     flat = []
     for s in segs:
         if isinstance(s, bytes):
             flat.extend(s)
         elif isinstance(s, sb.SymByte):
-            flat.append(s)
-        elif isinstance(s, sb.Atom):
+            flat.append(s.bv)
+        elif is_text_atom(s):
             flat.append(0x41)      # any ASCII stand-in
         else:
             raise Inconclusive("utf8 validity of %r" % (s,))
-    # concretise classes of symbolic bytes: 0 ascii, 1 cont(80-BF), 2 lead2(C2-DF), 3 lead3(E0-EF), 4 lead4(F0-F4), 5 invalid
-    concrete = []
+    return I.w.branch(utf8_valid_formula(flat), "utf8-valid")
+
+
+# UTF-8 acceptor: states 0 start, 1 need one continuation, 2 need two (any first), 3 after E0, 4 after ED,
+# 5 need three (any first), 6 after F0, 7 after F4, 8 reject
+_U8_CLASSES = [(0x00, 0x7F), (0x80, 0x8F), (0x90, 0x9F), (0xA0, 0xBF), (0xC2, 0xDF), (0xE0, 0xE0), (0xE1, 0xEC), (0xED, 0xED),
+               (0xEE, 0xEF), (0xF0, 0xF0), (0xF1, 0xF3), (0xF4, 0xF4)]
+
+
+def _u8_class(b):
+    for k, (lo, hi) in enumerate(_U8_CLASSES):
+        if lo <= b <= hi:
+            return k
+    return 12
+
+
+def _u8_step(state, cls):
+    if state == 8:
+        return 8
+    if state == 0:
+        return {0: 0, 4: 1, 5: 3, 6: 2, 7: 4, 8: 2, 9: 6, 10: 5, 11: 7}.get(cls, 8)
+    cont = cls in (1, 2, 3)
+    if state == 1:
+        return 0 if cont else 8
+    if state == 2:
+        return 1 if cont else 8
+    if state == 3:
+        return 1 if cls == 3 else 8
+    if state == 4:
+        return 1 if cls in (1, 2) else 8
+    if state == 5:
+        return 2 if cont else 8
+    if state == 6:
+        return 2 if cls in (2, 3) else 8
+    if state == 7:
+        return 2 if cls == 1 else 8
+    return 8
+
+
+def utf8_valid_formula(flat):
+    """flat: list of ints and z3 BitVec(8) terms -> bool or z3 Bool."""
+    state = 0          # python int or z3 Int expression
     for x in flat:
-        if isinstance(x, sb.SymByte):
-            b = x.bv
-            if I.w.branch(z3.ULT(b, 0x80), "u8-ascii"):
-                concrete.append(0x41)
-            elif I.w.branch(z3.ULT(b, 0xC0), "u8-cont"):
-                concrete.append(("cont", b))
-            elif I.w.branch(z3.And(z3.UGE(b, 0xC2), z3.ULE(b, 0xDF)), "u8-lead2"):
-                concrete.append(0xC3)
-            elif I.w.branch(z3.And(z3.UGE(b, 0xE1), z3.ULE(b, 0xEC)), "u8-lead3"):
-                concrete.append(0xE1)
-            elif I.w.branch(z3.And(z3.UGE(b, 0xF1), z3.ULE(b, 0xF3)), "u8-lead4"):
-                concrete.append(0xF1)
+        if not is_sym(x):
+            cls = _u8_class(x)
+            if not is_sym(state):
+                state = _u8_step(state, cls)
             else:
-                # C0, C1, E0, ED..EF, F0, F4..FF: edge leads -- treat precisely only as "invalid or edge":
-                # E0/ED/EE/EF/F0/F4 can start valid sequences with restricted continuations; decide by value
-                for val in (0xE0, 0xED, 0xEE, 0xEF, 0xF0, 0xF4):
-                    if I.w.branch(b == val, "u8-edge"):
-                        concrete.append(val)
-                        break
-                else:
-                    return False
+                state = _ite_states(state, lambda s_: _u8_step(s_, cls))
+            continue
+        conds = [z3.And(z3.UGE(x, lo), z3.ULE(x, hi)) for lo, hi in _U8_CLASSES]
+
+        def by_class(s_):
+            e = z3.IntVal(_u8_step(s_, 12))
+            for k in range(len(_U8_CLASSES) - 1, -1, -1):
+                e = z3.If(conds[k], z3.IntVal(_u8_step(s_, k)), e)
+            return e
+        if not is_sym(state):
+            state = by_class(state)
         else:
-            concrete.append(x)
-    # continuation bytes that are symbolic: pick representative 0x80..0xBF; edge-lead ranges may
-    # constrain them (E0: A0-BF, ED: 80-9F, F0: 90-BF, F4: 80-8F) -- decide with the solver.
-    out = bytearray()
-    for k, x in enumerate(concrete):
-        if isinstance(x, tuple):
-            b = x[1]
-            prev = out[-1] if out else None
-            if prev in (0xE0,):
-                ok = I.w.branch(z3.UGE(b, 0xA0), "u8-cont-e0")
-                out.append(0xA0 if ok else 0x80)
-            elif prev in (0xED,):
-                ok = I.w.branch(z3.ULE(b, 0x9F), "u8-cont-ed")
-                out.append(0x80 if ok else 0xA0)
-            elif prev in (0xF0,):
-                ok = I.w.branch(z3.UGE(b, 0x90), "u8-cont-f0")
-                out.append(0x90 if ok else 0x80)
-            elif prev in (0xF4,):
-                ok = I.w.branch(z3.ULE(b, 0x8F), "u8-cont-f4")
-                out.append(0x80 if ok else 0x90)
-            else:
-                out.append(0x80)
-        else:
-            out.append(x)
-    try:
-        bytes(out).decode("utf-8")
-        return True
-    except UnicodeDecodeError:
-        return False
+            e = by_class(8)
+            for s_ in range(7, -1, -1):
+                e = z3.If(state == s_, by_class(s_), e)
+            state = e
+    if not is_sym(state):
+        return state == 0
+    return z3.simplify(state == 0)
+
+
+def _ite_states(state, f):
+    e = z3.IntVal(f(8))
+    for s_ in range(7, -1, -1):
+        e = z3.If(state == s_, z3.IntVal(f(s_)), e)
+    return e
 
 
 def lines_of(I, content):
@@ -1964,3 +1982,46 @@ def _io_copy(I, a, d):
         if done_after:
             return OK(total)
     raise Hang("io::copy does not terminate")
+
+
+def _raw_lines(I, content):
+    """Split into lines INCLUDING their terminating newline (BufRead::read_line / read_until semantics)."""
+    from .core import decide_symbytes, split_with_cuts
+    content = decide_symbytes(I, content, [0x0A])
+    parts = split_with_cuts(I, content, 0x0A)
+    out = []
+    for k, p in enumerate(parts):
+        lastp = k == len(parts) - 1
+        if lastp:
+            if p.segs:
+                out.append(p)
+        else:
+            out.append(p + b"\n")
+    return out
+
+
+@T.trait("BufRead", "read_line")
+def _bufread_read_line(I, a, d):
+    br = peel(a[0])
+    buf = peel(a[1])
+    f = peel(br.inner)
+    if not isinstance(f, FileObj):
+        raise Inconclusive("read_line over %r" % (f,))
+    if getattr(br, "pending", None) is None:
+        try:
+            data = op_read_all(I, f)
+        except FsErr as e:
+            return ERR(io_err(e.kind, e.injected))
+        br.pending = _raw_lines(I, data)
+    if not br.pending:
+        return OK(0)
+    line = br.pending.pop(0)
+    if not utf8_check(I, line):
+        return ERR(io_err("InvalidData"))
+    buf.sb = buf.sb + line
+    return OK(line.length())
+
+
+@T.trait("BufRead", "read_until")
+def _bufread_read_until(I, a, d):
+    raise Inconclusive("BufRead::read_until")
